@@ -53,6 +53,12 @@ func (h *hashRanges) hash() []byte {
 	return h.topRange.hash
 }
 
+// canDivide reports whether the range holds at least divideFactor hash values;
+// a narrower range cannot be split into divideFactor non-empty parts and always stays a leaf
+func canDivide(from, to uint64, divideFactor int) bool {
+	return to-from >= uint64(divideFactor)-1
+}
+
 func (h *hashRanges) addElement(elHash uint64) {
 	rng := h.topRange
 	rng.elements++
@@ -61,7 +67,7 @@ func (h *hashRanges) addElement(elHash uint64) {
 		rng.elements++
 	}
 	h.dirty[rng] = struct{}{}
-	if rng.elements > h.compareThreshold {
+	if rng.elements > h.compareThreshold && canDivide(rng.from, rng.to, h.divideFactor) {
 		rng.isDivided = true
 		h.makeBottomRanges(rng)
 	}
@@ -151,7 +157,7 @@ func (h *hashRanges) makeBottomRanges(rng *hashRange) {
 	for _, tuple := range ranges {
 		newRange := h.makeRange(tuple, rng)
 		h.ranges[tuple] = newRange
-		if newRange.elements > h.compareThreshold {
+		if newRange.elements > h.compareThreshold && canDivide(tuple.from, tuple.to, h.divideFactor) {
 			if _, ok := h.dirty[rng]; ok {
 				delete(h.dirty, rng)
 			}
